@@ -533,6 +533,8 @@ class MediaModel:
       ('malformed',)        every call raises one and the same MediaMalformedError instance,
                             default or not
       ('unsupported',)      no handler: every call raises a 415 error, nothing is ever read
+      ('error',)            the attempt failed with any other exception (I/O error while reading, custom
+                            handler error): every call raises one and the same exception instance
     Calls after the first never touch the body stream.
     """
 
@@ -577,6 +579,13 @@ class MediaModel:
             if kind != 'exc':
                 bad.append(('undecodable-accepted',
                             'call #%d returned %r for an undecodable body' % (self.n, payload)))
+            else:
+                self._same_error(payload, bad)
+        elif o == 'error':
+            # the single parse attempt failed with an arbitrary exception (I/O error, custom handler error)
+            if kind != 'exc':
+                bad.append(('failed-parse-yielded-value',
+                            'call #%d returned %r although the only parse attempt failed' % (self.n, payload)))
             else:
                 self._same_error(payload, bad)
         elif o == 'unsupported':
